@@ -1645,8 +1645,6 @@ Lemma ex_map_values :
   tmap_sample_id_to_timestamp ex_map 3000 = QVal (2 ^ 58 + 5 * 2 ^ 29 + 7 + 536870914) /\
   tmap_timestamp_to_sample_id ex_map (2 ^ 58 + 2 ^ 29) = QVal 500 /\
   tmap_sample_id_to_timestamp ex_single 6000 = QVal (2 ^ 58 + 2 ^ 30) /\
-  tmap_sample_id_to_timestamp full_map 999001 = QVal (2 ^ 58 + 999 * 2 ^ 30 + 1073742) /\
-  tmap_timestamp_to_sample_id full_map (2 ^ 58 + 1000 * 2 ^ 30) = QVal 1000000 /\
   tmap_timestamp_to_sample_id eqt_map (2 ^ 40) = QVal 0 /\
   tmap_timestamp_to_sample_id eqt_map (2 ^ 40 + 5) = QVal 0.
 Proof. vm_compute. repeat split; reflexivity. Qed.
@@ -1659,3 +1657,11 @@ Proof.
   - exact (tmap_eq_old_s2t j t q Hs Hph).
   - exact (tmap_eq_old_t2s j t q Hs Hph).
 Qed.
+
+(* the map holding exactly ENTRIES_ALLOC_INIT entries, queried beyond its last anchor: no fault *)
+Lemma full_map_values :
+  exists t : tmap,
+    t = tmap_add_all (tmap_alloc (1000 # 1)) full_adds /\
+    tmap_sample_id_to_timestamp t 999001 = QVal (2 ^ 58 + 999 * 2 ^ 30 + 1073742) /\
+    tmap_timestamp_to_sample_id t (2 ^ 58 + 1000 * 2 ^ 30) = QVal 1000000.
+Proof. exists full_map. split; [reflexivity|]. vm_compute. split; reflexivity. Qed.
